@@ -17,3 +17,6 @@ func VerifC01SearchAdditionalAnswer(msg, res *dns.Msg) (string, bool) {
 func VerifC01ServeWire(e *CacheEntry, req *dns.Msg, do bool) ([]byte, middleware.WireInfo, bool) {
 	return e.serveWire(req, 64, do)
 }
+
+// VerifC01WireChaseServed reads the counter of replies composed by the cache-contained wire chase.
+func VerifC01WireChaseServed() uint64 { return uint64(wireChaseServed.Value()) }
